@@ -79,6 +79,17 @@ pub fn call(req: &Value) -> Value {
             let h = staking::helpers::addess_hash(&sarg(&a[0]), &key);
             json!({"ok": hex::encode(h)})
         }
+        "channel_ok" => {
+            // the channel test in isolation: every other field of the section is valid
+            let c = staking::types::UnsafeProtocolChainConfig {
+                account_address_prefix: "osmo".to_string(),
+                ibc_token_denom: format!("ibc/{}", "A".repeat(64)),
+                ibc_channel_id: sarg(&a[0]),
+                minimum_liquid_stake_amount: Uint128::zero(),
+                oracle_address: None,
+            };
+            json!({"ok": c.validate().is_ok()})
+        }
         "validate_protocol_chain_config" => {
             let bytes = serde_json::to_vec(&a[0]).unwrap();
             match from_json::<staking::types::UnsafeProtocolChainConfig>(&bytes) {
